@@ -46,6 +46,8 @@ package simplefixgo
 //@   forall j int
 //@   ensures[C19] @kept imp(old(mhas(p.handlers, msgType)) && 0 <= j && j < old(len(mget(p.handlers, msgType))), nth(mget(p.handlers, msgType), j) == old(nth(mget(p.handlers, msgType), j)))
 
+//@ func NewHandlerPool() (res *HandlerPool)
+//@   ensures[C19] res != nil && fresh(res) && res.handlers != nil
 // the public registration functions: a handler goes to the end of the list of its type
 //@ func (p *HandlerPool) Add(msgType string, handle OutgoingHandlerFunc) (id int64)
 //@   requires p != nil && p.handlers != nil
